@@ -1,10 +1,10 @@
 """C20 -- see DESIGN.md section 5.  Deductive targets are added below the bounded import."""
 PROP = "C20"
 LEVEL = 'other'
-EXPLANATION = ('Deductive: Highlighter.highlighted_lines raises nothing for any source text (every error of the tokenizer - TokenError, SyntaxError and its subclasses - ends in the plain-lines fallback), code_snippet raises nothing either and returns a contiguous run of at most before+after+1 numbered entries that contains the entry of the failing line whenever it exists; line_numbers yields one entry per line; the frame filter of ExceptionTrace._render_trace (prefix contract, cut point after its first loop) hands the listing code exactly the frames of the trace that are not under the ignored path -- none whose file name matches the ignore pattern unless the verbosity is debug, and every other frame.  Bounded: generated source files / source-less code x messages x verbosity x UTF-8, debug-level frame snippets, highlighter corpus.')
+EXPLANATION = ('Deductive: Highlighter.highlighted_lines raises nothing for any source text (every error of the tokenizer - TokenError, SyntaxError and its subclasses - ends in the plain-lines fallback), code_snippet raises nothing either and returns a contiguous run of at most before+after+1 numbered entries that contains the entry of the failing line whenever it exists; line_numbers yields one entry per line; the frame filter of ExceptionTrace._render_trace (prefix contract, cut point after its first loop) hands the listing code exactly the frames of the trace that are not under the ignored path -- none whose file name matches the ignore pattern unless the verbosity is debug, and every other frame; IO.is_debug and Output.is_debug, which the frame filter reads, are verified (DEBUG exactly).  Bounded: generated source files / source-less code x messages x verbosity x UTF-8, debug-level frame snippets, highlighter corpus.')
 LEVEL_NOTE = ('assumes: tokenize / crashtest are external (split_to_lines raises at most tokenize.TokenError, SyntaxError, IndentationError, TabError; FrameCollection as a ghost sequence with append, frame file names as ghost fields); re.match with the run-time ignore pattern is an uninterpreted predicate; the part of _render_trace after the filter loop (folding, snippets), highlighting and trace content are bounded only')
 from . import trace_contracts as tcx
-TARGETS = [tcx.H + "highlighted_lines", tcx.H + "line_numbers", tcx.H + "code_snippet", tcx.RENDER_TRACE_FILTER]
+TARGETS = [tcx.H + "highlighted_lines", tcx.H + "line_numbers", tcx.H + "code_snippet", tcx.RENDER_TRACE_FILTER] + tcx.IS_DEBUG_TARGETS
 from pyvc.contracts import REG as _R
 _R.ext_hook = tcx._trace_ext_hook
 LEMMAS = []
